@@ -112,6 +112,16 @@ def run(ctx):
             s = sentinels(lam.body, lam.args.args[0].arg)
             if s:
                 comb |= s
+    # the marker is a whole-cell value: removing it as a substring (str.replace) is not a 'missing cell' test
+    substr = [c for c in ast.walk(cdf.node) if isinstance(c, ast.Call) and isinstance(c.func, ast.Attribute)
+              and c.func.attr == "replace" and c.args and isinstance(c.args[0], ast.Constant) and c.args[0].value == "n/a"]
+    for c in substr:
+        ctx.violation("R6.2", cdf.qualname, c, loc(cdf, c),
+                      "the row combiner removes the text 'n/a' wherever it occurs inside a cell (substring replacement) instead "
+                      "of skipping cells that are exactly 'n/a': an annotation that merely contains 'n/a' (e.g. `Label/n/a-x`) "
+                      "is altered, and splicer and combiner no longer agree on what a missing cell is")
+    if not comb and substr:
+        return
     if not comb:
         raise AnalysisError("R6.2 anchor: no 'missing cell' test found in combine_dataframe")
     rr = prog.find_function("df_util.replace_ref")
